@@ -26,14 +26,16 @@ SeqSet(s) == {s[k] : k \in 1..Len(s)}
 \* one invocation: patterns is a sequence of packages (order as on the command line).
 \* subDir: -dir names a directory INSIDE the module (not the one holding go.mod) and the patterns are written
 \* relative to it; like relOut it must not influence anything (the Go toolchain finds go.mod in a parent).
-Invoke(pats, ign, relOut, subDir) ==
+\* emptyWild: an additional wildcard pattern over an existing directory that holds no package (./docs/...): the Go
+\* toolchain only warns about it, so next to patterns that match something it must not influence anything.
+Invoke(pats, ign, relOut, subDir, emptyWild) ==
   LET matched == SeqSet(pats)
       someErr == \E p \in matched : Bad(p, ver)
       newTree == [q \in Pkgs |->
                     IF q \in matched /\ (~Bad(q, ver) \/ ign)
                     THEN [v |-> ver[q], kind |-> IF Bad(q, ver) THEN "partial" ELSE "full"]
                     ELSE tree[q]]
-      e == [op |-> "invoke", pats |-> pats, ign |-> ign, relOut |-> relOut, subDir |-> subDir,
+      e == [op |-> "invoke", pats |-> pats, ign |-> ign, relOut |-> relOut, subDir |-> subDir, emptyWild |-> emptyWild,
             exit |-> IF someErr THEN 1 ELSE 0,
             tree |-> newTree,
             written |-> {q \in Pkgs : newTree[q] # tree[q]}]
@@ -41,14 +43,14 @@ Invoke(pats, ign, relOut, subDir) ==
 
 \* a pattern that matches no package: exit 1, nothing written
 InvokeNoMatch ==
-  LET e == [op |-> "nomatch", pats |-> <<>>, ign |-> FALSE, relOut |-> FALSE, subDir |-> FALSE, exit |-> 1, tree |-> tree, written |-> {}]
+  LET e == [op |-> "nomatch", pats |-> <<>>, ign |-> FALSE, relOut |-> FALSE, subDir |-> FALSE, emptyWild |-> FALSE, exit |-> 1, tree |-> tree, written |-> {}]
   IN /\ last' = e /\ hist' = Append(hist, e) /\ UNCHANGED <<tree, ver>>
 
 Edit(p) == /\ ver' = [ver EXCEPT ![p] = 3 - @]
-           /\ last' = [op |-> "edit", p |-> p] /\ hist' = Append(hist, [op |-> "edit", p |-> p, pats |-> <<>>, ign |-> FALSE, relOut |-> FALSE, subDir |-> FALSE, exit |-> 0, tree |-> tree, written |-> {}])
+           /\ last' = [op |-> "edit", p |-> p] /\ hist' = Append(hist, [op |-> "edit", p |-> p, pats |-> <<>>, ign |-> FALSE, relOut |-> FALSE, subDir |-> FALSE, emptyWild |-> FALSE, exit |-> 0, tree |-> tree, written |-> {}])
            /\ UNCHANGED tree
 
-Next == \/ \E pats \in PatternLists, ign \in BOOLEAN, rel \in BOOLEAN, sub \in BOOLEAN : Invoke(pats, ign, rel, sub)
+Next == \/ \E pats \in PatternLists, ign \in BOOLEAN, rel \in BOOLEAN, sub \in BOOLEAN, ew \in BOOLEAN : Invoke(pats, ign, rel, sub, ew)
         \/ InvokeNoMatch
         \/ \E p \in Pkgs : Edit(p)
 Spec == Init /\ [][Next]_vars
